@@ -929,8 +929,21 @@ func replay(prog []Op, upto int) *Runner {
 }
 
 func (k *Checker) checkNeutral(prog []Op, i, j, sid int, ptxt string) {
+	// continuation writes: none, every address the reverted region wrote to, and one bystander
 	conts := []int64{0}
-	conts = append(conts, addrs...)
+	seen := map[int64]bool{}
+	for _, o := range prog[i+1 : j] {
+		if o.S == sid && isWrite(o.K) && !seen[o.A] {
+			seen[o.A] = true
+			conts = append(conts, o.A)
+		}
+	}
+	for _, a := range addrs {
+		if !seen[a] {
+			conts = append(conts, a)
+			break
+		}
+	}
 	for _, b := range []bool{true, false} {
 		for _, w := range conts {
 			k.nOracle["O2"]++
